@@ -6,6 +6,8 @@ package main
 // harness from the start with a longer prefix (DESIGN.md §3.2(b)).
 
 import (
+	"os"
+	"sync/atomic"
 	"fmt"
 	"sort"
 	"strings"
@@ -35,9 +37,13 @@ type pathAbort struct {
 	detail string
 }
 
+var dumpQueries = os.Getenv("VERIF_DUMP_QUERIES") != ""
+var checkIntervals = os.Getenv("VERIF_CHECK_INTERVALS") != ""
+var intervalMismatches, intervalChecked int64
+
 type pathStats struct {
 	Decisions, Obligations, ObligationsTrivial, Discharged, Candidates, Undischarged int
-	FeasQueries, ModelHits                                                          int
+	FeasQueries, ModelHits, IntervalHits                                            int
 }
 
 type pathCtx struct {
@@ -64,6 +70,10 @@ type pathCtx struct {
 	choices  map[string]int // recorded verifChoice results (for replay models)
 	assumed  []string
 	proved   map[string]bool
+	facts    map[string]bool    // assumed constraints (interval.go)
+	bounds   map[string]*ibound // box bounds implied by them
+	groups   []sumGroup         // Σ atoms <= T constraints among them
+	defs     map[string]*term   // atom = linear term (definitions taken from assumed equalities)
 }
 
 func newPathCtx(s *solver, pre prefix, harness string) *pathCtx {
@@ -111,6 +121,7 @@ func (p *pathCtx) assume(c *term) {
 	}
 	p.pc = append(p.pc, c)
 	p.s.assert(c)
+	p.noteFact(c)
 	if p.cur != nil {
 		if v, ok := p.cur.eval(c); !ok || v != true {
 			p.cur = nil
@@ -132,7 +143,38 @@ func (p *pathCtx) feasible(c *term) (satResult, model) {
 			return rSat, p.cur
 		}
 	}
+	// decided by the bounds of the variables alone? (interval.go)
+	switch tv := p.tri(c); tv {
+	case triFalse, triTrue:
+		if checkIntervals {
+			// debugging aid: every shortcut verdict is compared with the solver's
+			p.s.push()
+			p.s.assert(c)
+			r := p.s.checkSat()
+			p.s.pop()
+			atomic.AddInt64(&intervalChecked, 1)
+			if (tv == triFalse && r == rSat) || (tv == triTrue && r == rUnsat) {
+				atomic.AddInt64(&intervalMismatches, 1)
+				fmt.Fprintf(os.Stderr, "INTERVAL-MISMATCH tri=%d solver=%v cond=%s\n  bounds=%v\n", tv, r, c.String(), p.boundsString())
+			}
+		}
+		if tv == triFalse {
+			p.stats.IntervalHits++
+			return rUnsat, nil
+		}
+		if p.cur != nil {
+			p.stats.IntervalHits++
+			return rSat, p.cur
+		}
+	}
 	p.stats.FeasQueries++
+	if dumpQueries {
+		s := c.String()
+		if len(s) > 260 {
+			s = s[:260]
+		}
+		fmt.Fprintln(os.Stderr, "QUERY", s)
+	}
 	p.s.push()
 	p.s.assert(c)
 	r := p.s.checkSat()
